@@ -255,7 +255,9 @@ def _long(rng, tier):
                   (65535, "rand", 1500, "big"), (65536, "last", 3000, "max"), (67900, "last", 3000, "max")]
     for (n, where, cnt, mag) in specs:
         for thr in THRESHOLDS:
-            w = rng.randint(1, 8)
+            # the extracted model recurses over the encoded byte list (Coq's app/length are not tail
+            # recursive in OCaml): keep encodings below ~300 KB so the default 8 MB stack suffices
+            w = rng.randint(1, 8) if n < 40000 else rng.randint(1, 4)
             mn = rng.choice(MINS)
             vs, hi = _regular(rng, n, mn, w, rng.choice(["rand", "marker"]))
             yield _case(thr, _with_outliers(rng, vs, hi, mn, cnt, where, mag))
